@@ -2287,4 +2287,22 @@ func runMw(ctx *Ctx) {
 		group(kind, msrc, isrc, []string{script + ":" + rng.Pick(r, []string{"o5", "e4"}) + ":-", "-:o5:@", "e1,e2:o5:-"}, i%4 == 0)
 		ctx.Res.Count("mw.random-chains")
 	}
+	// long chains (the property speaks of every chain; nothing in the chain code may depend on a depth bound):
+	// pass-through stages, one stage in the middle calling next twice, the last one tagging the message
+	for _, l := range []int{9, 10, 13, 16, 17, 25, 32, 33, 64, 65} {
+		stages := make([]string, l)
+		for k := range stages {
+			stages[k] = "c"
+		}
+		stages[l/2] = "c.c"
+		stages[l-1] = "mt7.xt3.c"
+		for _, kind := range allKinds {
+			msrc, isrc := strings.Join(stages, "/"), "-"
+			if kind == "srvboth" {
+				msrc, isrc = strings.Join(stages[:l/2], "/"), strings.Join(stages[l/2:], "/")
+			}
+			group(kind, msrc, isrc, []string{"-:o5:-", "e1:o5:-"}, l%2 == 1)
+			ctx.Res.Count("mw.long-chains")
+		}
+	}
 }
